@@ -355,7 +355,8 @@ class PDFContentParser(PSStackParser[Union[PSKeyword, PDFStream]]):
                     raise PSTypeError(error_msg)
                 d = {literal_name(k): resolve1(v) for (k, v) in choplist(2, objs)}
                 eos = b"EI"
-                filter = d.get("F", None)
+                # (the full key name is as valid as the abbreviation)
+                filter = d.get("F", d.get("Filter"))
                 if filter is not None:
                     if isinstance(filter, PSLiteral):
                         filter = [filter]
